@@ -15,13 +15,13 @@ Fixpoint labels_eqb (a b : list (list N)) : bool :=
 Fixpoint is_suffix (e n : list (list N)) : bool :=
   labels_eqb e n || match n with [] => false | _ :: n' => is_suffix e n' end.
 
-Inductive entry := EFull (ls : list (list N)) | EDomain (ls : list (list N)).
+Inductive dset_entry := DsFull (ls : list (list N)) | DsDomain (ls : list (list N)).
 
-Definition entry_matches (e : entry) (ls : list (list N)) : bool :=
-  match e with EFull f => labels_eqb f ls | EDomain d => is_suffix d ls end.
+Definition entry_matches (e : dset_entry) (ls : list (list N)) : bool :=
+  match e with DsFull f => labels_eqb f ls | DsDomain d => is_suffix d ls end.
 
 (* a name that does not scan matches nothing (the trie walk stops at the scanner error) *)
-Definition set_match (es : list entry) (name : list N) : bool :=
+Definition set_match (es : list dset_entry) (name : list N) : bool :=
   match scan name with Ok ls => existsb (fun e => entry_matches e ls) es | _ => false end.
 
 (* ---------- rules ---------- *)
